@@ -8,7 +8,9 @@ M2 (spec->code)  : the same TLC run exports the cases; `vdrive scenario` renders
                    through HCL), builds the REAL provider + gun through the registered factories and runs a
                    real engine against a scripted in-process target; TraceScenario.tla compares the ordered
                    request log, the samples and the ring with Expected(case) computed by the specification.
-M1 (code->spec)  : 4 instances on one shared [next] iterator; TraceScenario.NextRowsOK on the rows seen.
+M1 (code->spec)  : 4 instances on one shared [next] iterator; TraceScenario.NextRowsOK on the rows seen.  First-access
+                   contention: 120 short runs (fresh provider each) of 8 instances that meet at a spin barrier in front
+                   of every step's real preprocessor, so that the first [next] look-up of each path is simultaneous.
 """
 import json
 import os
@@ -99,8 +101,11 @@ def run(tier, v):
     # 2. M2 / M1: the real code
     b = vlib.harness_build()
     d = vlib.scratch()
-    single = [c for c in cases if c["fam"] != "next"]
+    single = [c for c in cases if c["fam"] not in ("next", "first")]
     multi = [c for c in cases if c["fam"] == "next"]
+    first = [c for c in cases if c["fam"] == "first"]
+    if len(first) < 3:
+        raise vlib.MachineryError("first-access cases missing from the export")
     vlib.write_ndjson(os.path.join(d, "single.ndjson"), single)
     vlib.write_ndjson(os.path.join(d, "multi.ndjson"), multi * (3 if thorough else 1))
     o1, o2 = os.path.join(d, "obs1.ndjson"), os.path.join(d, "obs2.ndjson")
@@ -108,10 +113,18 @@ def run(tier, v):
                         "-hcl-every", "5", "-workers", "6"], timeout=1500)
     vlib.run_driver(b, ["scenario", "-in", os.path.join(d, "multi.ndjson"), "-out", o2, "-instances", "4",
                         "-workers", "2"], timeout=900)
+    # first-access contention: 8 instances with one shot each meet at a spin barrier in front of every step's real
+    # preprocessor, i.e. in front of the first [next] look-up of every path; every repetition builds a fresh provider
+    # (fresh iterator); sequential, so that the 8 instances have the cores for themselves
+    vlib.write_ndjson(os.path.join(d, "first.ndjson"), first)
+    o3 = os.path.join(d, "obs3.ndjson")
+    vlib.run_driver(b, ["scenario", "-in", os.path.join(d, "first.ndjson"), "-out", o3, "-instances", "8", "-spin-barrier",
+                        "-repeat", "120" if thorough else "40", "-workers", "1"], timeout=900)
     obs = os.path.join(d, "obs.ndjson")
     with open(obs, "w") as f:
         f.write(open(o1).read())
         f.write(open(o2).read())
+        f.write(open(o3).read())
     rows, tr = validate(v, obs)
     vlib.log("TraceScenario: %d lines in %.1fs" % (len(rows), tr.wall))
     nontrivial = len({json.dumps([c["case"]["scens"], c["case"]["script"], c["case"]["reqs"]], sort_keys=True) for c in rows})
@@ -154,8 +167,11 @@ def replay(path, v):
     row = obj["line"]
     vlib.write_ndjson(os.path.join(d, "c.ndjson"), [row["case"]])
     o = os.path.join(d, "o.ndjson")
-    vlib.run_driver(b, ["scenario", "-in", os.path.join(d, "c.ndjson"), "-out", o, "-instances", str(row["inst"]),
-                        "-hcl-every", "1" if row["obs"].get("format") == "hcl" else "0"])
+    args = ["scenario", "-in", os.path.join(d, "c.ndjson"), "-out", o, "-instances", str(row["inst"]),
+            "-hcl-every", "1" if row["obs"].get("format") == "hcl" else "0"]
+    if row["case"]["fam"] == "first":      # a race: give it the same number of chances as the check does
+        args += ["-spin-barrier", "-repeat", "120", "-workers", "1"]
+    vlib.run_driver(b, args)
     validate(v, o, tag="_replay")
     return None
 
